@@ -7,7 +7,11 @@ import (
 	"time"
 
 	"verif/mc/core"
+	"verif/mc/props/c02"
 	"verif/mc/props/c03"
+	"verif/mc/props/c04"
+	"verif/mc/props/c05"
+	"verif/mc/props/c06"
 )
 
 type prop struct {
@@ -17,6 +21,10 @@ type prop struct {
 }
 
 var props = map[string]prop{
+	"C06": {"fault_enumeration", c06.Main, func(r *core.Run, mode string, raw []byte) { c06.Replay(r, mode, raw) }},
+	"C05": {"model_checking", c05.Main, func(r *core.Run, mode string, raw []byte) { c05.Replay(r, mode, raw) }},
+	"C04": {"model_checking", c04.Main, func(r *core.Run, mode string, raw []byte) { c04.Replay(r, raw) }},
+	"C02": {"model_checking", c02.Main, func(r *core.Run, mode string, raw []byte) { c02.Replay(r, raw) }},
 	"C03": {"model_checking", c03.Main, func(r *core.Run, mode string, raw []byte) { c03.Replay(r, raw) }},
 }
 
